@@ -31,7 +31,10 @@ def _record(prop, mech, msg, **details):
 def expected_lines(string):
     """the tab-expanded, commonly de-indented docstring, line by line"""
     s = string.expandtabs()
-    lines = s.splitlines()
+    # (a docstring's lines end in LF; form feeds and unicode separators stay inside their line: finding F37)
+    lines = s.split('\n')
+    if lines[-1] == '':
+        lines.pop()
     indents = [len(ln) - len(ln.lstrip(' ')) for ln in lines if ln.strip(' ') != '' and ln.lstrip(' ')[:1] not in ('',)]
     # only lines with a non-blank character count
     indents = [len(ln) - len(ln.lstrip(' ')) for ln in lines if ln.strip() != '']
